@@ -79,7 +79,7 @@ def online_gen(seed: int) -> Callable:
 
     def gen(sess, i: int) -> Dict:
         plan = sess.plan
-        view = ops.View(sess.snap, sess.seams.fs.files)
+        view = ops.View(sess.snap, sess.seams.fs.files, sess.recent)
         step = ops.gen_step(rs, view, plan["ops"], plan["weights"])
         sw = plan["swarm"]
         evs = []
